@@ -73,19 +73,26 @@ def generate(seed, tier, batch):
         x = r.random()
         late = k >= L * 0.6
         if gbs:
-            # gaussian primitives first, Fock measurements late, a few early ones on otherwise untouched modes
+            # gaussian primitives first, Fock measurements late, a few early ones on otherwise untouched modes.  Mostly well-formed GBS
+            # circuits (a mode is measured once, nothing acts on it afterwards); one in four runs ignores that, so refusals stay exercised
+            sloppy = seed % 4 == 0
+            free_ = [m for m in alive if m not in measured] if not sloppy else list(alive)
+            if not free_:
+                break
             if late or x < 0.08:
-                ms = r.sample(alive, r.randint(1, min(3, len(alive))))
-                ops.append({"op": "MeasureFock", "m": ms})
+                ms = r.sample(free_, r.randint(1, min(3, len(free_))))
+                # threshold detectors are primitives of the compiler too: they are measurements, but not the ones that get collected
+                ops.append({"op": "MeasureFock" if r.random() < 0.85 else "MeasureThreshold", "m": ms})
+                measured += [m for m in ms if m not in measured]
                 continue
             if x < 0.45:
-                ops.append({"op": r.choice(["Sgate", "Rgate", "Dgate"]), "p": [round(r.uniform(-1, 1), 3)], "m": [r.choice(alive)]})
-            elif x < 0.8 and len(alive) > 1:
-                ops.append({"op": "BSgate", "p": [round(r.uniform(0, 1.5), 3), round(r.uniform(0, 3), 3)], "m": r.sample(alive, 2)})
+                ops.append({"op": r.choice(["Sgate", "Rgate", "Dgate"]), "p": [round(r.uniform(-1, 1), 3)], "m": [r.choice(free_)]})
+            elif x < 0.8 and len(free_) > 1:
+                ops.append({"op": "BSgate", "p": [round(r.uniform(0, 1.5), 3), round(r.uniform(0, 3), 3)], "m": r.sample(free_, 2)})
             elif x < 0.9:
-                ops.append({"op": "LossChannel", "p": [round(r.uniform(0.2, 1), 3)], "m": [r.choice(alive)]})
+                ops.append({"op": "LossChannel", "p": [round(r.uniform(0.2, 1), 3)], "m": [r.choice(free_)]})
             else:
-                ops.append({"op": "Fourier", "m": [r.choice(alive)]})
+                ops.append({"op": "Fourier", "m": [r.choice(free_)]})
             continue
         if x < 0.30:
             ops.append({"op": r.choice(["Sgate", "Rgate", "Dgate", "Kgate", "Vgate", "Pgate"]), "p": [round(r.uniform(-1, 1), 3)],
@@ -144,7 +151,8 @@ def generate(seed, tier, batch):
     nsched = 6 if not big else 10
     scheds = [{"mode": "native"}, {"mode": "far"}, {"mode": "near"}] + [{"mode": "random", "k": i} for i in range(nsched - 3)]
     scheds.append({"mode": "enum", "cap": 60 if not big else 200})
-    return {"kind": "circuit", "n": n, "ops": ops, "mark": mark, "schedules": scheds, "sseed": seed, "foreign_first": r.random() < 0.25, "values_present": r.random() < 0.3}
+    return {"kind": "circuit", "n": n, "ops": ops, "mark": mark, "schedules": scheds, "sseed": seed, "foreign_first": r.random() < 0.25, "values_present": r.random() < 0.3,
+            "kept_compiler": r.random() < 0.5}
 
 
 def gen_xunitary(r, seed):
@@ -239,6 +247,9 @@ def execute(script, w):
     import strawberryfields.compilers.xunitary as xumod
 
     specops = script["ops"]
+    # the compiler by name (a new compiler object per compilation) or one compiler object the session keeps and uses for every compilation,
+    # the foreign program's included
+    gbs_compiler = gbsmod.GBS() if script.get("kept_compiler") else "gbs"
     if script.get("foreign_first") and len(specops) > 1:
         # the same functions were applied to another circuit (the reversed op list where legal, else a prefix) earlier in the process
         w.fault("foreign_activity:reorder_other_circuit")
@@ -248,7 +259,7 @@ def execute(script, w):
             pu.group_operations(fprog.circuit, lambda op: isinstance(op, sfops.MeasureFock))
             pu.optimize_circuit(fprog.circuit)
             try:
-                fprog.compile(compiler="gbs")
+                fprog.compile(compiler=gbs_compiler)
             except pu.CircuitError:
                 pass
         except Exception as ex:  # noqa
@@ -352,11 +363,21 @@ def execute(script, w):
         # or it is an identity-parameter gate)
         w.probes["optimize_changed"] += int(len(kept) != len(seq))
 
+    verdicts = []
+
     def f_gbs(sched_name):
         try:
-            c = prog.compile(compiler="gbs")
-        except pu.CircuitError:
+            c = prog.compile(compiler=gbs_compiler)
+        except pu.CircuitError as ex:
             w.probes["gbs_rejected"] += 1
+            # a compiler object has no memory: what it refuses now it refuses always, and the other way round
+            verdicts.append(("rejected", str(ex)[:80]))
+            if verdicts[0][0] != "rejected":
+                w.violation("same-commands", "gbs-compile-verdict-changes-between-compilations", {"first": verdicts[0], "now": verdicts[-1], "kept_compiler_object": bool(script.get("kept_compiler"))})
+            return
+        verdicts.append(("accepted", ""))
+        if verdicts[0][0] != "accepted":
+            w.violation("same-commands", "gbs-compile-verdict-changes-between-compilations", {"first": verdicts[0], "now": verdicts[-1], "kept_compiler_object": bool(script.get("kept_compiler"))})
             return
         w.probes["gbs_accepted"] += 1
         out = c.circuit
